@@ -28,6 +28,7 @@ func init() {
 (assert (forall ((x Real)) (! (= (powr x 2.0) (* x x)) :pattern ((powr x 2.0)))))
 (assert (forall ((x Real)) (! (= (powr x (- 1.0)) (/ 1.0 x)) :pattern ((powr x (- 1.0))))))
 (assert (forall ((x Real)) (! (= (powr x 1.0) x) :pattern ((powr x 1.0)))))
+(assert (forall ((x Real)) (! (= (powr x 0.0) 1.0) :pattern ((powr x 0.0)))))
 `})
 	// psum(s, i) = s[0] + ... + s[i-1]
 	addPrelude(&PreludeFn{Name: "psum", Args: []string{"stream", "int"}, Ret: "real", Deps: []string{"sel_Real"}, SMT: `
@@ -152,5 +153,22 @@ func init() {
 (declare-fun wminS (Int Int Int) Real)
 (assert (forall ((s Int) (lo Int) (hi Int)) (! (=> (<= hi (+ lo 1)) (= (wminS s lo hi) (sel_Real s lo))) :pattern ((wminS s lo hi)))))
 (assert (forall ((s Int) (lo Int) (hi Int)) (! (=> (> hi (+ lo 1)) (= (wminS s lo hi) (ite (<= (wminS s lo (- hi 1)) (sel_Real s (- hi 1))) (wminS s lo (- hi 1)) (sel_Real s (- hi 1))))) :pattern ((wminS s lo hi)))))
+`})
+	// agemaxS / ageminS(s,lo,hi): bars since the most recent greatest / least value of s[lo..hi-1] (0 = the last bar)
+	addPrelude(&PreludeFn{Name: "agemaxS", Args: []string{"stream", "int", "int"}, Ret: "int", Deps: []string{"sel_Real", "wmaxS"}, SMT: `
+(declare-fun agemaxS (Int Int Int) Int)
+(assert (forall ((s Int) (lo Int) (hi Int)) (! (=> (<= hi (+ lo 1)) (= (agemaxS s lo hi) 0)) :pattern ((agemaxS s lo hi)))))
+(assert (forall ((s Int) (lo Int) (hi Int)) (! (=> (> hi (+ lo 1)) (= (agemaxS s lo hi) (ite (>= (sel_Real s (- hi 1)) (wmaxS s lo (- hi 1))) 0 (+ (agemaxS s lo (- hi 1)) 1)))) :pattern ((agemaxS s lo hi)))))
+`})
+	addPrelude(&PreludeFn{Name: "ageminS", Args: []string{"stream", "int", "int"}, Ret: "int", Deps: []string{"sel_Real", "wminS"}, SMT: `
+(declare-fun ageminS (Int Int Int) Int)
+(assert (forall ((s Int) (lo Int) (hi Int)) (! (=> (<= hi (+ lo 1)) (= (ageminS s lo hi) 0)) :pattern ((ageminS s lo hi)))))
+(assert (forall ((s Int) (lo Int) (hi Int)) (! (=> (> hi (+ lo 1)) (= (ageminS s lo hi) (ite (<= (sel_Real s (- hi 1)) (wminS s lo (- hi 1))) 0 (+ (ageminS s lo (- hi 1)) 1)))) :pattern ((ageminS s lo hi)))))
+`})
+	// devsq(s,lo,hi,mu): sum of squared deviations of s[lo..hi-1] from mu
+	addPrelude(&PreludeFn{Name: "devsq", Args: []string{"stream", "int", "int", "real"}, Ret: "real", Deps: []string{"sel_Real"}, SMT: `
+(declare-fun devsq (Int Int Int Real) Real)
+(assert (forall ((s Int) (lo Int) (hi Int) (mu Real)) (! (=> (<= hi lo) (= (devsq s lo hi mu) 0.0)) :pattern ((devsq s lo hi mu)))))
+(assert (forall ((s Int) (lo Int) (hi Int) (mu Real)) (! (=> (> hi lo) (= (devsq s lo hi mu) (+ (devsq s lo (- hi 1) mu) (* (- (sel_Real s (- hi 1)) mu) (- (sel_Real s (- hi 1)) mu))))) :pattern ((devsq s lo hi mu)))))
 `})
 }
